@@ -377,7 +377,11 @@ func historyCase(c *run.Ctx) run.Result {
 			return res
 		}
 		sub := &subject{site: site, input: input, cpu: hs.CPU, cut: step.Cut, g: g, st: st, witness: hs, desc: desc, seamTrigger: seamTrigger(rec, g, step.Cut)}
+		sub.pinchAt = func(q [3]int) bool { return weldPinchAt(rec, q, step.Cut, hs.CPU) }
 		judge(&res, sub, md)
+		if res.Inconclusive != "" && len(res.Violations) == 0 {
+			return res
+		}
 		marches++
 		res.Count("history_marches_judged", 1)
 		if newBlocksSinceMarch {
